@@ -12,10 +12,12 @@
      9 validate_identifier text -> bool
     10 deprecation (name package version (replacement)?) -> (1 text doc breaks) | (0) ValueError
     11 Spec.StanXml.norm stan  -> forest
-    12 neutralise text         -> text *)
+    12 neutralise text         -> text
+    17 the translated code of html2stan (Gen/ReparseCode.v) on text -> as 8, (3) assertion, (4) other
+    18 the translated code of deprecatedToUsefulText on (name package version (replacement)?) -> (1 text) | (0) | (4) *)
 From Coq Require Import ZArith NArith List Bool.
 From PydoctorVerif Require Import Base.Sexp Gen.TablesC10 Model.Stan Model.DocutilsEsc Model.Html2Stan
-  Model.DeprecateText Spec.Xml Spec.StanXml.
+  Model.DeprecateText Model.ReparseIR Gen.ReparseCode Spec.Xml Spec.StanXml.
 Import ListNotations.
 
 Definition some_text (o : option text) : sexp :=
@@ -50,5 +52,18 @@ Definition run (s : sexp) : sexp :=
     end
   | 11%Z => forest_sexp (norm (stan_in arg))
   | 12%Z => of_text (neutralise (to_text arg))
+  | 17%Z =>
+    match run_html2stan code_html2stan (to_text arg) with
+    | RReturn (VStan st) => L [A 1%Z; stan_sexp st]
+    | RRaise ex => if N.eqb ex ExSAXParse then L [A 0%Z] else L [A 3%Z]
+    | _ => L [A 4%Z]
+    end
+  | 18%Z =>
+    match run_deprecate code_deprecate (to_text (nth_s 0 arg)) (to_text (nth_s 1 arg)) (to_text (nth_s 2 arg))
+                        (to_option to_text (nth_s 3 arg)) with
+    | RReturn (VPair (VStr _) (VStr t)) => L [A 1%Z; of_text t]
+    | RRaise ex => if N.eqb ex ExValueError then L [A 0%Z] else L [A 3%Z]
+    | _ => L [A 4%Z]
+    end
   | _ => bad_input
   end.
